@@ -3,7 +3,7 @@
 import glob, json, os, re
 root = os.path.dirname(os.path.dirname(os.path.abspath(__file__)))
 rows = []
-n_total = n_first = n_after = n_design = 0
+n_total = n_first = n_after = n_design = n_internal = n_other = 0
 for f in sorted(glob.glob(os.path.join(root, "seeded", "*", "meta.json"))):
     m = json.load(open(f))
     own = m["property"]
@@ -23,9 +23,14 @@ for f in sorted(glob.glob(os.path.join(root, "seeded", "*", "meta.json"))):
         n_after += 1
     elif "by design" in owntext:
         n_design += 1
+    elif "not reported" in owntext:
+        n_internal += 1
+    elif now:
+        n_other += 1
     rows.append("| `%s` | %s | %s | %s | %s |" % (m["name"], m["needs_to_manifest"].replace("|", "/"), ", ".join(now) or "—", ", ".join(after) or "—", ", ".join(silent) or "—"))
 summary = ("%d seeded changes: %d caught by their own property's check as it stood; %d reached only after the check was strengthened "
-           "(what was added is in each meta.json and in §10); %d not reported by design (§6.8).\n\n" % (n_total, n_first, n_after, n_design))
+           "(what was added is in each meta.json and in §10); %d caught by other properties' checks only; %d not reported by design (§6.8); %d not reported because it is "
+           "unobservable through any public entry point (reason in its meta.json).\n\n" % (n_total, n_first, n_after, n_other, n_design, n_internal))
 table = ("<!-- SEEDED-BEGIN -->\n" + summary +
          "| seeded change | what it needs in order to manifest | caught now by (quick tier, exit 1 with witness) | of these, only after strengthening | run but silent |\n|---|---|---|---|---|\n" +
          "\n".join(rows) + "\n<!-- SEEDED-END -->")
